@@ -123,7 +123,13 @@ func (o *vzOracles) onCommittedHeaderSaved(nd *vzNode, ch tmconsensus.CommittedH
 		if _, ok := d.commits[h-1]; !ok {
 			o.violate("C04", "gap", "%s: committed height %d saved while height %d is not committed", nd.ident(), h, h-1)
 		} else if prev := d.commits[h-1]; !bytes.Equal(ch.Header.PrevBlockHash, []byte(prev[len(prev)-1])) {
-			o.violate("C04", "not-hash-linked", "%s: committed header %d names predecessor %x but height %d is committed with hash %x", nd.ident(), h, ch.Header.PrevBlockHash, h-1, prev[len(prev)-1])
+			key := "not-hash-linked"
+			if o.w.beyondModel {
+				// validators holding at least one third of the power have signed two targets in one round:
+				// two valid certificates for one height can exist; reported under its own class
+				key = "not-hash-linked/one-third-equivocated"
+			}
+			o.violate("C04", key, "%s: committed header %d names predecessor %x but height %d is committed with hash %x", nd.ident(), h, ch.Header.PrevBlockHash, h-1, prev[len(prev)-1])
 		}
 	}
 	o.checkCommitCertificate(nd, "committed-header-store", ch.Header, ch.Proof)
@@ -436,7 +442,11 @@ func (o *vzOracles) checkView(nd *vzNode, consumer string, v *tmconsensus.Versio
 		}
 	}
 	if prev, ok := o.lastView[key]; ok {
-		if v.Version <= prev.version {
+		// A jump-ahead is a signal that carries a snapshot of the round to move towards; the mirror may
+		// repeat it (a state machine several rounds behind is moved one round at a time), so the same
+		// version may be seen again there. It must never go backwards, and it must never shrink.
+		repeatOK := consumer == "statemachine-jump" && v.Version == prev.version
+		if v.Version <= prev.version && !repeatOK {
 			o.violate("C11", "version-not-increasing/"+strings.SplitN(consumer, "-", 2)[0], "%s: %s received view %d/%d version %d after version %d", nd.ident(), consumer, v.Height, v.Round, v.Version, prev.version)
 		}
 		for k := range prev.phs {
